@@ -50,7 +50,7 @@ CHECKS = {
    "Both binaries walk the same enumerated operation list (decode/encode/Elligator/group programs/scalar mul/field API shared by both builds) and emit digest-chunked transcripts that must be identical; first differing record is the replay.",
    "Only operations both builds offer; same finite domains as C02/C05/C07/C10/C11 (DESIGN 3/C12)."),
  "C13": ("model_checking", "explicit-state exploration of forcing histories of the lazy variable + " + E3,
-   "Honest synthesis of every gadget on structured inputs: satisfied iff native succeeds, output equals native; all histories of bounded length over the lazy variable's operations checked against the 3-state model (state tag, no re-emission, values unchanged).",
+   "Honest synthesis of every gadget on structured inputs (operands allocated from elements, and two-operand gadgets also from pairs of lazily allocated valid/invalid encodings): satisfied iff native succeeds, output equals native; all histories of bounded length over the lazy variable's operations checked against the 3-state model (state tag, no re-emission, values unchanged).",
    "Hooks H3; ark-relations' is_satisfied as the constraint evaluator (DESIGN 3/C13)."),
  "C14": ("fault_enumeration", "exhaustive enumeration of prover-hint substitutions (fault sequences) at every isqrt call site",
    "For every gadget input and every isqrt call of a synthesis, every hint from a set that contains all values able to satisfy any case equation is substituted (singly; pairs in thorough); satisfied => output equals native and native accepts.",
